@@ -35,7 +35,7 @@ def bounds(tier):
         return {'k=1': 'all 5 outcomes x 3 flush arrangements, preemptions<=2',
                 'k=2': 'all 25 outcome vectors x 3 arrangements, preemptions<=1; vectors over {ok,exc} with A flushing, preemptions<=2',
                 'modes': MODES, 'outcomes': OUTCOMES}
-    return {'k=1': 'preemptions<=3', 'k=2': 'all 25 outcome vectors x 3 arrangements, preemptions<=2',
+    return {'k=1': 'preemptions<=3, opcode-level points in callback/_next_id', 'k=2': 'all 25 outcome vectors x 3 arrangements, preemptions<=2',
             'k=3': 'all 125 outcome vectors, preemptions<=1', 'modes': MODES, 'outcomes': OUTCOMES}
 
 
@@ -59,6 +59,10 @@ def cases(tier, seed):
 
 
 FILTER = S.file_filter({'deep/task/__init__.py': None, 'deep/push/push_service.py': None})
+# thorough: opcode granularity (the finest at which CPython can switch threads) in the read-modify-write functions
+FILTER_OP = S.file_filter({'deep/task/__init__.py': {'callback': 'op', '_next_id': 'op', 'submit_task': 'line', 'flush': 'line', '__check_open': 'line'},
+                           'deep/push/push_service.py': None})
+TIER = {'t': 'quick'}
 
 
 def make_snapshot(i, outcome):
@@ -80,7 +84,7 @@ def make_factory(desc):
     k, ov, mode = desc['k'], desc['ov'], desc['mode']
 
     def make(sched):
-        sched.filter = FILTER
+        sched.filter = FILTER_OP if TIER['t'] == 'thorough' and desc['k'] == 1 else FILTER
         st = {'futures': {}, 'accepted': [], 'refused': [], 'flush': [], 'desc': desc}
 
         def send_handler(req, md):
@@ -234,6 +238,7 @@ def oracle(ctx, desc):
 
 
 def run_case(ctx, desc):
+    TIER['t'] = ctx.tier
     make = make_factory(desc)
     with patches():
         if 'schedule' in desc:
